@@ -67,6 +67,10 @@ pub trait Engine: Sync {
     fn split(&self, _case: &Self::Case) -> Vec<Self::Case> {
         vec![]
     }
+    /// the parts returned by `split` are prefixes of growing length
+    fn split_is_prefix_chain(&self) -> bool {
+        false
+    }
     /// short structural description of a case (used in the detail of abort / hang violations)
     fn describe(&self, _case: &Self::Case) -> String {
         String::new()
@@ -373,11 +377,29 @@ fn run_isolated<E: Engine>(e: &E, opts: &Opts) -> Vec<Option<RunOut>> {
                             let case = e.generate(mix(opts.seed, i as u64));
                             let mut what = e.describe(&case);
                             if !hung {
-                                for sub in e.split(&case) {
-                                    if let Some(h) = dies_alone(e, &exe, &sub) {
-                                        what = format!("{} ({h})", e.describe(&sub));
-                                        ro.case_json = serde_json::to_string(&sub).ok();
-                                        break;
+                                let parts = e.split(&case);
+                                if e.split_is_prefix_chain() && !parts.is_empty() {
+                                    // longer prefixes die whenever a shorter one does: bisect
+                                    let (mut lo, mut hi) = (0usize, parts.len() - 1);
+                                    if dies_alone(e, &exe, &parts[hi]).is_some() {
+                                        while lo < hi {
+                                            let mid = (lo + hi) / 2;
+                                            if dies_alone(e, &exe, &parts[mid]).is_some() {
+                                                hi = mid;
+                                            } else {
+                                                lo = mid + 1;
+                                            }
+                                        }
+                                        what = format!("{} ({how})", e.describe(&parts[lo]));
+                                        ro.case_json = serde_json::to_string(&parts[lo]).ok();
+                                    }
+                                } else {
+                                    for sub in parts {
+                                        if let Some(h) = dies_alone(e, &exe, &sub) {
+                                            what = format!("{} ({h})", e.describe(&sub));
+                                            ro.case_json = serde_json::to_string(&sub).ok();
+                                            break;
+                                        }
                                     }
                                 }
                             }
